@@ -1274,6 +1274,11 @@ NETGEN_TYPES = ["grid", "chain", "ring", "star", "ring-star", "one-net", "htree"
 
 
 def gen_netgen_main(rng) -> dict:
+    if rng.random() < 0.3:
+        # the command line the seed exists for: a grid with centres, a die, noise > 0 and every kind of legal seed
+        return {"producer": "netgenmain", "type": "grid", "size": [rng.randint(1, 4), rng.randint(1, 4)], "add": True,
+                "die": [float(rng.randint(2, 30)), float(rng.choice([rng.randint(2, 30), rng.randint(4, 60) / 2]))],
+                "noise": rng.choice(["flag", 0.25, 1e-3, 0.5, 2.0]), "seed": rng.choice([0, 0, 0, 1, 7, None, rng.randint(2, 10 ** 6)])}
     kind = rng.choice(NETGEN_TYPES)
     nsz = 2 if kind == "grid" else 1
     if rng.random() < 0.25:
@@ -1284,8 +1289,11 @@ def gen_netgen_main(rng) -> dict:
     add = rng.random() < (0.6 if kind == "grid" else 0.15)
     die = None if rng.random() < (0.15 if add else 0.6) else [float(rng.randint(1, 30)), float(rng.choice([rng.randint(1, 30), rng.randint(2, 60) / 2]))]
     noise = rng.choice([None, None, "flag", 0.0, 0.25, 1e-3, -0.5])
+    if kind == "grid" and add and rng.random() < 0.6:
+        noise = rng.choice(["flag", 0.25, 1e-3, 0.5, 2.0])          # a good share of the centred grids are noisy
+    # every legal seed, 0 included (an int that is falsy), and no seed at all
     return {"producer": "netgenmain", "type": kind, "size": size, "add": add, "die": die, "noise": noise,
-            "seed": rng.choice([None, rng.randint(0, 10 ** 6)])}
+            "seed": rng.choice([None, 0, 0, 1, 7, rng.randint(0, 10 ** 6)])}
 
 
 def run_netgen_main(ctx: Ctx, inp: dict, batch: Batch) -> None:
@@ -1318,6 +1326,19 @@ def run_netgen_main(ctx: Ctx, inp: dict, batch: Batch) -> None:
             out = load_text(text)
             if rc != 0:
                 ctx.spec_fail("netgenmain:return-code", inp, {"rc": rc}, _size(inp))
+            # producing twice gives identical documents: the SAME command line again, in a fresh state (tolerances undefined,
+            # the random generator left wherever an unrelated earlier use put it), into another file.  Without --seed a
+            # noisy grid is random by design: the clause is skipped there.
+            if seed is not None or sd <= 0 or not add:
+                Rectangle.undefine_epsilon()
+                random.seed(987654321 + len(args))
+                fn2 = os.path.join(td, "n2.yaml")
+                with contextlib.redirect_stdout(QUIET), contextlib.redirect_stderr(QUIET):
+                    netgen.main("netgen", [fn2 if a == fn else a for a in args])
+                text2 = open(fn2).read()
+                ctx.count("netgenmain:run-twice" + (":seeded-noise" if add and sd > 0 and kind == "grid" else ""))
+                if text2 != text:
+                    ctx.spec_fail("netgenmain:twice-identical-documents", inp, {"args": args[2:], "first": text[:300], "second": text2[:300]}, _size(inp))
         except (AssertionError, ZeroDivisionError) as e:
             out = err_class(e)
         except SystemExit:
